@@ -376,6 +376,17 @@ THEOREMS = {
             "JP.C17.layout_reads_back", "JP.C17.store_wf", "JP.C17.legacy_normNum_none_iff",
             "JP.C17.legacy_encNum_total",
         ],
+        # closest-of-the-shortest, monotonicity, overflow threshold, integers to 2^53 (lemmas JP/Lemmas/FloatMore*.lean)
+        "JP.Props.C17floatMore": [
+            "JP.C17.round_overflow_iff", "JP.C17.overflow_iff", "JP.C17.overflow_value",
+            "JP.C17.round_monotone", "JP.C17.round_interval", "JP.C17.le_iff_units",
+            "JP.C17.parse_monotone", "JP.C17.search_is_minimal", "JP.C17.short_decimal_found",
+            "JP.C17.decDist_eq", "JP.C17.search_is_closest", "JP.C17.decPoint_exact",
+            "JP.C17.shortest_from_search", "JP.C17.shortest_is_shortest", "JP.C17.shortest_not_parsed_shorter",
+            "JP.C17.shortest_is_closest", "JP.C17.format_exact_nat_53", "JP.C17.nat_literal_roundtrip_53",
+            "JP.C17.canonical_nat_53", "JP.C17.format_nat_big_counterexample", "JP.C17.parse_exact_repr_nat",
+            "JP.C17.format_exact_nat_reprGoal_false",
+        ],
         "JP.Props.C17typeddec": [
             "JP.C17.typeddec_agrees_untyped", "JP.C17.typeddec_no_panic_untyped", "JP.C17.typeddec_panic_on_unsettable_pointer",
             "JP.C17.typeddec_result_typed", "JP.C17.typeddec_unknown_members_ignored", "JP.C17.typeddec_exact_before_fold",
@@ -460,7 +471,7 @@ OPEN = {
     "C16": [],
     "C17": ["foreign MarshalJSON/MarshalText methods and recursive types: differential testing against encoding/json only; the ENCODER and the DECODER on typed values / targets — structs, tags, embedding, maps, slices, arrays, pointers — are modelled (JP/Codec/Typed.lean, stream `typed`, JP.Props.C17typed; JP/Codec/TypedDecode.lean + TypedFold.lean, stream `typeddec`, JP.Props.C17typeddec)",
             "typed DECODER: open: typeddec_no_panic_no_fuel on ALL decodable types (proved for the library's own target shapes: typeddec_no_panic_untyped; a TAGGED embedded pointer to an unexported struct makes the real decoder and encoding/json panic in reflect.Value.Set: outside the theorem's domain), the struct-member theorems are stated per member (memberStep / findField / literalStore), not over the parse tree, typeddec_roundtripGoal (its unrestricted form is refuted: typeddec_roundtrip_unrestricted_false); errorContext (Struct/Field of the message) and Decoder.DisallowUnknownFields are not modelled; float-kinded fields are outside GoType (floats are modelled separately: JP/Codec/Float.lean)",
-            "floats (JP/Codec/Float.lean, stream `float`, JP.Props.C17float): the shortest-digits search checks its own answer, so the round trip is proved by construction; that the search never gives up (17 / 9 digits always suffice, the bytes laid out are read back) IS proved (JP.Props.C17floatTotal: search_total, float_encode_none_iff' — `searchFails` is still evaluated on every generated value); that the chosen digits are the CLOSEST shortest ones (Go's tie rule: even last digit) is validated by the correspondence only; `parseFloat` is proved to be `roundRat` on the exact fraction for every literal (shortcuts for astronomic exponents included) and `roundRat` to round to the nearest integer significand (ties to even) at the exponent of the value's binade (round_nearest_even); and that result is nearest to the value among ALL finite floats of the format (round_nearest_all, parse_nearest); not proved: monotonicity, and that an overflow answer is given ONLY above the largest finite float plus half an ulp (the exponent condition is in round_nearest_even); format_exact_nat is proved for n < 10^15 (not up to 2^53 / 10^21); literals with more than 800 significant INTEGER digits are outside the model's domain (`withinGoDigits`): there strconv.ParseFloat itself is not correctly rounded (\"1\" + 800 zeros + \"e-800\" reads as 0.1 in the fork and in encoding/json alike); float fields inside typed values (stream `typed`) are still not generated",
+            "floats (JP/Codec/Float.lean, stream `float`, JP.Props.C17float): the shortest-digits search checks its own answer, so the round trip is proved by construction; that the search never gives up (17 / 9 digits always suffice, the bytes laid out are read back) IS proved (JP.Props.C17floatTotal: search_total, float_encode_none_iff' — `searchFails` is still evaluated on every generated value); that the digits are the SHORTEST ones and of these the CLOSEST to the exact value, ties to the even last digit, IS proved (JP.Props.C17floatMore: shortest_is_shortest, shortest_not_parsed_shorter, shortest_is_closest, decPoint_exact); `parseFloat` is proved to be `roundRat` on the exact fraction for every literal (shortcuts for astronomic exponents included) and `roundRat` to round to the nearest integer significand (ties to even) at the exponent of the value's binade (round_nearest_even); and that result is nearest to the value among ALL finite floats of the format (round_nearest_all, parse_nearest); monotonicity (round_monotone, round_interval, parse_monotone in the order FP.le of the exact values) and the overflow threshold (overflow_iff: range error exactly from maxFinite + ulp/2 = overflowThr on) are proved (JP.Props.C17floatMore); format_exact_nat_53 holds for every n < 2^53, and for representable integers from 2^53 up to 10^21 the goal format_exact_nat_reprGoal is REFUTED (format_exact_nat_reprGoal_false, format_nat_big_counterexample: 2^69 prints as 590295810358705700000, the shortest digits padded with zeros; what does hold there: the decimal digits of every integer float are read back exactly, parse_exact_repr_nat); literals with more than 800 significant INTEGER digits are outside the model's domain (`withinGoDigits`): there strconv.ParseFloat itself is not correctly rounded (\"1\" + 800 zeros + \"e-800\" reads as 0.1 in the fork and in encoding/json alike); float fields inside typed values (stream `typed`) are still not generated",
             "typed_escape_irrelevantGoal (equal values under both EscapeHTML settings) is refuted for `,string` fields of kind string (JP.C17.typed_escape_irrelevant_counterexample: the standard library's own behaviour); proved up to the relation escRel",
             "Decoder/Encoder streams are modelled (JP/Codec/Stream.lean) for the decoder model's target types and the encoder model's value shapes; refill's chunking is abstracted (checked by differential runs through five chunkings), messages/offsets of stream-level errors are not modelled; Encode with a NON-EMPTY prefix: the bytes are the modelled Indent (compared differentially), parse-back is proved for the empty prefix only; `syntaxStickyEveryCallGoal` is false in the real code and in encoding/json (Token/More ignore dec.err): proved for every later Decode",
             "the unchecked entry points (UnmarshalValid*) on ILL-FORMED texts: model validated by testing only (the library never calls them behind a failed Valid gate)"],
